@@ -112,7 +112,6 @@ pub struct File { _p: () }
 impl File {
     pub uninterp spec fn data(&self) -> Seq<u8>;
 }
-pub const BUF_READER_CAPACITY_BYTES: usize = 512 * 1000;
 #[verifier::external_body]
 pub struct BufReader { _p: () }
 impl BufReader {
